@@ -119,3 +119,113 @@ package csync
 //@ func (*MutexLocker).Unlock
 //@   props C01 C13
 //@   opt frame = skip
+//
+// ---------------------------------------------------------------------------------------------------
+// RWMutex. Cells as for Mutex; ghost history:
+//   rmx(c) / rmxt(c)  the RWMutex of a Lock status cell (set at creation) / of a granted TryLock cell
+//   rmode(c)          1: the cell asks for / holds the read mode, 2: the write mode (0: not a RWMutex cell)
+//   rreg(c)           the Lock call of c has been through its first critical section
+//   rgrant(c)         the RWMutex that c currently holds (nil: none)
+//   rrelG(c)/rrelW(c) release invocation that swapped a granted / a still waiting cell and has not yet
+//                     finished its critical section (owned by that invocation)
+// RWMutex ghost fields (guarded): wowner (write holder), readers (set of read holders), waiters (set of
+// registered waiting writers). R1..R3 give "one writer and no reader, or readers and no writer";
+// N1 ties writeWaiting to the registered waiting writers (writer preference, and "a cancelled waiter
+// leaves no trace"); TB1..TB3 say that every change that can make a waiter grantable broadcasts.
+//
+//@ ghostmap rmx: ref -> ref once
+//@ ghostmap rmxt: ref -> ref once
+//@ ghostmap rmode: ref -> int once
+//@ ghostmap rreg: ref -> bool once
+//@ ghostmap rgrant: ref -> ref
+//@ ghostmap rrelG: ref -> ref owned
+//@ ghostmap rrelW: ref -> ref owned
+//
+//@ object RWMutex
+//@   props C01 C02 C13
+//@   lock bcast.mtx
+//@   guarded nreaders, writing, writeWaiting
+//@   bounded nreaders, writeWaiting
+//@   ghost wowner: ref
+//@   ghost readers: set[ref]
+//@   ghost waiters: set[ref]
+//@   inv R1: fin(this.readers) && this.nreaders == card(this.readers)
+//@   inv R2: this.writing <==> this.wowner != nil
+//@   inv R3: this.writing ==> this.nreaders == 0
+//@   inv R4: this.wowner != nil ==> rgrant(this.wowner) == this && rmode(this.wowner) == 2
+//@   inv R5: forall c: ref {this.readers[c]} :: this.readers[c] ==> rgrant(c) == this && rmode(c) == 1
+//@   inv N1: fin(this.waiters) && this.writeWaiting == card(this.waiters)
+//@   inv N2: forall c: ref {this.waiters[c]} :: this.waiters[c] ==> rmx(c) == this && rmode(c) == 2 && rgrant(c) == nil && rreg(c)
+//@   trans TB1: old(this.writing) && !this.writing ==> (old(this.bcast.ch) != nil ==> closed(old(this.bcast.ch)))
+//@   trans TB2: this.nreaders < old(this.nreaders) ==> (old(this.bcast.ch) != nil ==> closed(old(this.bcast.ch)))
+//@   trans TB3: this.writeWaiting < old(this.writeWaiting) && !this.writing ==> (old(this.bcast.ch) != nil ==> closed(old(this.bcast.ch)))
+//
+//@ ginv RG1: forall c: ref {rgrant(c)} :: rgrant(c) != nil ==> c != nil && (rmx(c) == rgrant(c) || rmxt(c) == rgrant(c)) && (rmode(c) == 2 ==> cast(rgrant(c), RWMutex).wowner == c) && (rmode(c) == 1 ==> cast(rgrant(c), RWMutex).readers[c])
+//@ ginv RG2: forall c: ref {rmx(c)} :: rmx(c) != nil && aint(c) == 1 ==> rgrant(c) == rmx(c)
+//@ ginv RG4: forall c: ref {rgrant(c)} :: rgrant(c) != nil && rmx(c) == rgrant(c) ==> aint(c) == 1 || (aint(c) == 2 && rrelG(c) != nil)
+//@ ginv RG4t: forall c: ref {rgrant(c)} :: rgrant(c) != nil && rmxt(c) == rgrant(c) ==> !abool(c) || rrelG(c) != nil
+//@ ginv RG5: forall c: ref {rmxt(c)} :: rmxt(c) != nil && !abool(c) ==> rgrant(c) == rmxt(c)
+//@ ginv RG6: forall c: ref {rmx(c)} :: rmx(c) != nil ==> rmxt(c) == nil
+//@ ginv RG7: forall c: ref {rrelG(c)} :: rrelG(c) != nil ==> rgrant(c) != nil && ((rmx(c) == rgrant(c) && aint(c) == 2) || (rmxt(c) == rgrant(c) && abool(c)))
+//@ ginv RG8: forall c: ref {rrelW(c)} :: rrelW(c) != nil ==> rmx(c) != nil && aint(c) == 2 && rgrant(c) == nil && (rmode(c) == 2 ==> cast(rmx(c), RWMutex).waiters[c])
+//@ ginv RV: forall c: ref {rmx(c)} :: rmx(c) != nil ==> 0 <= aint(c) && aint(c) <= 2
+//@ ginv RX1: forall c: ref {rmx(c)} :: rmx(c) != nil ==> mxl(c) == nil && mxt(c) == nil && grant(c) == nil
+//@ ginv RX2: forall c: ref {rmxt(c)} :: rmxt(c) != nil ==> mxl(c) == nil && mxt(c) == nil && grant(c) == nil
+//@ ginv RW2: forall c: ref {rreg(c)} :: rreg(c) && rmx(c) != nil && rmode(c) == 2 && aint(c) == 0 ==> cast(rmx(c), RWMutex).waiters[c]
+//
+//@ func (*RWMutex).Lock
+//@   props C01 C02
+//@   opt frame = skip
+//@   requires ctx != nil
+//@   ghost init status: rmx(status) := m
+//@   ghost init status: rmode(status) := ite(write, 2, 1)
+//@   ensures held: result1 == nil ==> aint(status) == 1 && rgrant(status) == m && result0 != nil
+//@   ensures failed: result1 != nil ==> result1 == context.Canceled && cancelled(ctx) && !written(m.nreaders) && !written(m.writing) && rgrant(status) == nil
+//@   loop 1 invariant waiting: aint(status) == 0 && !written(m.nreaders) && !written(m.writing) && rmx(status) == m && rmode(status) == ite(write, 2, 1) && rreg(status)
+//@   loop 1 invariant parked: waitCh != nil && issuedBy(waitCh) == m.bcast && gettime(waitCh) == lastcs()
+//@   assert select 1: selects(waitCh) && selects(done(ctx)) && waitCh != nil && issuedBy(waitCh) == m.bcast && gettime(waitCh) == lastcs()
+//
+//@ closure (*RWMutex).Lock$1
+//@   props C01 C02
+//@   ghost atomic 1: rgrant(status) := m
+//@   ghost atomic 1: m.wowner := status
+//@   ghost atomic 2: rgrant(status) := m
+//@   ghost atomic 2: m.readers := add(m.readers, status)
+//@   ghost exit: m.waiters := ite(write && aint(status) == 0, add(m.waiters, status), m.waiters)
+//@   ghost exit: rreg(status) := true
+//@   assert exit: aint(status) != 1 ==> waitCh != nil && waitCh == m.bcast.ch && ite(write, m.nreaders != 0 || m.writing, m.writing || m.writeWaiting != 0)
+//
+//@ closure (*RWMutex).Lock$3
+//@   props C01 C02
+//@   ghost atomic 1: rgrant(status) := m
+//@   ghost atomic 1: m.wowner := status
+//@   ghost atomic 1: m.waiters := del(m.waiters, status)
+//@   ghost atomic 2: rgrant(status) := m
+//@   ghost atomic 2: m.readers := add(m.readers, status)
+//@   assert exit: aint(status) != 1 ==> waitCh != nil && waitCh == m.bcast.ch && ite(write, m.nreaders != 0 || m.writing, m.writing || m.writeWaiting != 0)
+//
+//@ func (*RWMutex).Lock$2
+//@   props C01 C02
+//@   inline
+//@   opt frame = skip
+//@   captured rmx(status) == m && rmode(status) == ite(write, 2, 1) && rreg(status) && m != nil && status != nil
+//@   ghost atomic 1: rrelG(status) := ite(ret == 1, me, rrelG(status))
+//@   ghost atomic 1: rrelW(status) := ite(ret == 0, me, rrelW(status))
+//@   ensures norepeat: pre == 2 ==> !written(m.nreaders) && !written(m.writing) && !written(m.writeWaiting)
+//
+//@ closure (*RWMutex).Lock$2$1
+//@   props C01 C02
+//@   assert entry: pre == 0 || pre == 1
+//@   assert entry: pre == 1 ==> rgrant(status) == m && rrelG(status) == me
+//@   assert entry: pre == 0 ==> rgrant(status) == nil && rrelW(status) == me
+//@   assert entry: pre == 1 && !write ==> m.readers[status]
+//@   assert entry: pre == 1 && !write ==> card(m.readers) >= 1
+//@   assert entry: pre == 1 && !write ==> m.nreaders >= 1 && !m.writing
+//@   assert entry: pre == 1 && write ==> m.wowner == status && m.writing && m.nreaders == 0
+//@   assert entry: pre == 0 && write ==> m.waiters[status] && m.writeWaiting >= 1
+//@   ghost exit: rgrant(status) := ite(pre == 1, nil, rgrant(status))
+//@   ghost exit: m.wowner := ite(pre == 1 && write, nil, m.wowner)
+//@   ghost exit: m.readers := ite(pre == 1 && !write, del(m.readers, status), m.readers)
+//@   ghost exit: m.waiters := ite(pre == 0 && write, del(m.waiters, status), m.waiters)
+//@   ghost exit: rrelG(status) := ite(rrelG(status) == me, nil, rrelG(status))
+//@   ghost exit: rrelW(status) := ite(rrelW(status) == me, nil, rrelW(status))
